@@ -598,8 +598,45 @@ def generate_globals() -> bool:
           "/-- module, qualified name, kind -/",
           "def globals : List (String × String × String) := ["]
     tl.append(",\n".join(f"  ({lean_str(m)}, {lean_str(n)}, {lean_str(k)})" for m, n, k in rows))
+    tl += ["]", "",
+           "/-- functions with a MUTABLE default argument value (one object per process, shared by every call that omits the",
+           "    argument): module, qualified function name, parameter -/",
+           "def mutableDefaults : List (String × String × String) := ["]
+    tl.append(",\n".join(f"  ({lean_str(m)}, {lean_str(n)}, {lean_str(k)})" for m, n, k in mutable_defaults()))
     tl += ["]", "", "end AiuVerif.Gen", ""]
     return write_if_changed(GEN / "Globals.lean", "\n".join(tl))
+
+
+def mutable_defaults():
+    """every function / method of the package one of whose parameters defaults to a list / dict / set display, a
+    comprehension or a call of a mutable constructor"""
+    import ast
+    root = repo_src()
+    ctors = {"list", "dict", "set", "defaultdict", "deque", "OrderedDict", "Counter", "bytearray"}
+    rows = []
+    for q in sorted(root.rglob("*.py")):
+        mod = ".".join(q.relative_to(root).with_suffix("").parts)
+        tree = ast.parse(q.read_text())
+
+        def visit(node, prefix):
+            for c in ast.iter_child_nodes(node):
+                if isinstance(c, ast.ClassDef):
+                    visit(c, prefix + c.name + ".")
+                elif isinstance(c, (ast.FunctionDef, ast.AsyncFunctionDef)):
+                    a = c.args
+                    pos = a.posonlyargs + a.args
+                    pairs = list(zip(pos[len(pos) - len(a.defaults):], a.defaults)) + \
+                        [(k, d) for k, d in zip(a.kwonlyargs, a.kw_defaults) if d is not None]
+                    for arg, d in pairs:
+                        mut = isinstance(d, (ast.List, ast.Dict, ast.Set, ast.ListComp, ast.DictComp, ast.SetComp)) or \
+                            (isinstance(d, ast.Call) and isinstance(d.func, ast.Name) and d.func.id in ctors)
+                        if mut:
+                            rows.append((mod, prefix + c.name, arg.arg))
+                    visit(c, prefix + c.name + ".")
+                else:
+                    visit(c, prefix)
+        visit(tree, "")
+    return rows
 
 
 def generate_tables(sites) -> bool:
